@@ -161,6 +161,17 @@ func (g *genCtx) playConv(kind, sess string) conv {
 	if kind == "tcp" && g.rng.IntN(2) == 0 {
 		c.reqs = append(c.reqs, convStep{raw: frameBytes(1, rtcpRR()), label: "frame"})
 	}
+	if kind == "tcp" && g.rng.IntN(2) == 0 {
+		// well-formed media in the wrong direction, on the channels of the session
+		pts := []byte{96, 0, 97}
+		for k := 0; k < 1+g.rng.IntN(3); k++ {
+			ch := g.rng.IntN(2 * nm)
+			if g.rng.IntN(6) == 0 {
+				ch = 2*nm + g.rng.IntN(3)
+			}
+			c.reqs = append(c.reqs, convStep{raw: frameBytes(ch, rtpPacket(pts[g.rng.IntN(3)], uint16(g.rng.IntN(65536)))), label: "frame"})
+		}
+	}
 	if g.rng.IntN(3) == 0 {
 		add(&RawReq{Method: "GET_PARAMETER", URL: u, Headers: hdr(cseq, [2]string{"Session", sess})}, "keepalive")
 	}
